@@ -193,6 +193,9 @@ func runC02(c *Ctx) {
 	gsR1(c, g, "C02.R1")
 	c02R2(c, g, "C02.R2")
 	c02R3(c, g)
+	// what is sent is a whole-entry prefix of that ascending order (rules of C13)
+	c13Encode(c, "C02.R4", "C02.R4")
+	c13Decode(c, "C02.R4")
 }
 
 // gsR1: own state written only locally; everything else excludes the local node.
